@@ -126,8 +126,16 @@ func c02ProgOracle(e *progEnv, res *progStepResult) (sig, what string, descend b
 	return "", "", res.post[0].panic == nil
 }
 
+func c02AgedCheck(x *cpuCtx, c *cpuCase) (string, string) {
+	sig, what, _ := c02Check(x, c)
+	return sig, what
+}
+
 func replayC02(raw json.RawMessage) (string, error) {
 	cpuDirtIRQ = true
+	if ok, what, err := cpuAgedReplay(raw, c02AgedCheck); ok {
+		return what, err
+	}
 	var pp progPath
 	if json.Unmarshal(raw, &pp) == nil && len(pp.Syms) > 0 {
 		return progReplay(pp, progSeeds(true), progAlphabetInt(), false, c02ProgOracle)
@@ -147,6 +155,7 @@ func runC02(r *report.Run) {
 	cpuDirtIRQ = true
 	o := cpuSweepOpts{thorough: r.Tier == "thorough", withE: true, withInt: true, seed: r.Seed}
 	var nontriv, total int64
+	agedSteps := cpuAgedAll(r, o.thorough, true, c02AgedCheck)
 	counts := cpuEnumerate(o, nil, func(x *cpuCtx, c *cpuCase) {
 		sig, what, nt := c02Check(x, c)
 		if nt {
@@ -169,7 +178,7 @@ func runC02(r *report.Run) {
 	r.Set("states", total+st)
 	r.Set("transitions", total+tr)
 	r.Set("traces_validated_against_impl", total+tr)
-	r.Set("evaluations", total+tr)
+	r.Set("evaluations", total+tr+agedSteps/2)
 	r.Set("distinct_nontrivial", nontriv)
 	for i, cs := range cpuSampled {
 		if i%8 == 0 {
